@@ -361,7 +361,14 @@ static void print_bytes(FILE *f, const unsigned char *p, size_t n) {
             src.append("      }")
         src.append('      std::fprintf(f, "]}"); std::free(pa); std::free(pb);')
         src.append("    } else if (c == 'C') {")
-        src.append("      int dst = (int)in.num(); int ok = VIEW(dst).TryToCopyFrom(VIEW(3 - dst));")
+        src.append("      int dst = (int)in.num();")
+        src.append("      { // the same call on exact-size allocations of their own first (the sanitizers see every byte outside either window)")
+        src.append("        size_t ls = wl[3 - dst], ld = wl[dst];")
+        src.append("        unsigned char *qs = static_cast<unsigned char *>(std::malloc(ls ? ls : 1)); unsigned char *qd = static_cast<unsigned char *>(std::malloc(ld ? ld : 1));")
+        src.append("        if (ls) std::memcpy(qs, mem + wo[3 - dst], ls); if (ld) std::memcpy(qd, mem + wo[dst], ld);")
+        src.append("        auto vs = %s::Make%sView(%sqs, ls); auto vd = %s::Make%sView(%sqd, ld);" % (ns, tn, pargs, ns, tn, pargs))
+        src.append("        (void)vd.TryToCopyFrom(vs); std::free(qs); std::free(qd); }")
+        src.append("      int ok = VIEW(dst).TryToCopyFrom(VIEW(3 - dst));")
         src.append('      std::fprintf(f, "{\\"e\\":\\"cp\\",\\"dst\\":%d,\\"ok\\":%d,\\"after\\":", dst, ok); print_bytes(f, mem, n);')
         src.append('      std::fprintf(f, ",\\"o\\":["); { Out o{f, true}; %s(VIEW(dst), "", o); } std::fprintf(f, "]}");' % _obs_fn_name(tn))
         src.append("    } else if (c == 'X') {")
